@@ -188,6 +188,29 @@ AddAssigned(p, A) == /\ ~api[p].exists /\ resv[p] = {}
                      /\ api' = [api EXCEPT ![p] = [exists |-> TRUE, node |-> TRUE, term |-> FALSE, alloc |-> A]]
                      /\ UNCHANGED <<total, resv, lost>> /\ EnvExempt
 
+(*********************** one scheduling cycle, step by step ************************)
+\* The plugin-level driver (TestVerifC07Plugin) runs whole scheduling cycles through the real Plugin methods on TWO
+\* nodes.  Every node has its own ledgers; the state above is the state of ONE node (the VIEW of a trace segment, see
+\* DeviceTrace!CycleSpec), and a history on several nodes is validated once per node.
+\*
+\* What the scheduler does for a pod between PreFilter and Reserve only READS a node's ledgers: PreFilter, the what-if
+\* steps of preemption / nominated pods (PreFilterExtensions.RemovePod / AddPod on a copy of the cycle state), Filter on
+\* any node.  Nothing was allocated or released: the inventory, every pod's recorded allocation and therefore in-use
+\* and free of every device stay what they are - on every node.
+CycleRead == UNCHANGED vars
+\* Reserve on THIS node: what it commits must satisfy (A) against the node's state at THIS moment - whatever an earlier
+\* Filter of the cycle saw on this or on another node, whatever happened since -, and a failure must be excused by (K)
+\* at this moment; the commit itself is the allocate+commit step of the property
+Reserve(p, reqs, required, ok, result) == Alloc(p, reqs, required, ok, result, TRUE)
+\* A step that concerns ANOTHER node (its inventory, a pod assigned to it, Reserve / Unreserve / bind on it): this
+\* node's ledgers do not move.  A pod object delivered as assigned elsewhere is, for this node, an object that exists
+\* and is not assigned here (what = "exists"), a deleted one is gone ("gone"); Reserve / Unreserve on another node
+\* deliver no object ("same").
+Elsewhere(p, what) == /\ ~api[p].node /\ resv[p] = {}
+                      /\ api' = [api EXCEPT ![p] = IF what = "gone" THEN NoPod
+                                                   ELSE IF what = "exists" THEN [NoPod EXCEPT !.exists = TRUE] ELSE @]
+                      /\ UNCHANGED <<total, resv, lost>> /\ KeepExempt
+
 \* C19: the scheduler restarts.  The inventory (Device object) and the pod objects - with the allocation the binding
 \* cycle persisted in their annotation - survive in the API server; what a scheduling cycle held between Reserve and
 \* bind lived only in the scheduler's memory, nothing was persisted for it, and it is lost with the process (the pod
